@@ -11,6 +11,11 @@ THEOREMS = [
     "Pedal.SandboxExec.c05_restored_after_op",
     "Pedal.SandboxExec.c05_discharges_c04_hypothesis",
     "Pedal.SandboxExec.c05_restored_after_history",
+    "Pedal.SandboxExec.c05_ladder_depth_independent",
+    "Pedal.SandboxExec.c05_restored_when_nested",
+    "Pedal.SandboxExec.c05_restored_after_nested",
+    "Pedal.SandboxExec.c05_restored_after_nested_history",
+    "Pedal.SandboxExec.c05_executeN_extends_execute",
     "Pedal.SandboxExec.c05_builtins_private",
     "Pedal.SandboxExec.c05_restored_partial",
     "Pedal.SandboxExec.c05_restored_full_of_no_excluded",
@@ -33,7 +38,20 @@ NOTES = [
     "AST, private helpers followed: exec inside the tracer's `with`, no try around it, no mocking calls - c05_import_transparent); that it patches "
     "nothing else is sampled by the histories that import helper.py",
     "student code that itself calls sys.settrace is outside the model (not generated)",
-    "timeouts (threaded execution, _execute_with_timeout) are C14's and not modelled",
+    "timeouts (_execute_with_timeout's TimeoutError branch) are C14's and not modelled. A THREADED execution that "
+    "ends by itself (sandbox.threaded = True / threaded=True; the same ladder run by a worker thread, the imports "
+    "relayed to a further thread) is not modelled either: it is SAMPLED - every threaded history is compared with "
+    "the model's answer for the same history unthreaded (except the calling thread's trace function, which a "
+    "threaded execution does not borrow: the oracle demands it untouched) and judged by the oracle",
+    "NESTED executions (an execution started on the sandbox while another one is in progress on it: the input "
+    "callable, a mocked builtin or an instructor function in the student namespace running call / evaluate / run) "
+    "ARE modelled: executeN / runN apply the nested executions while the outer `exec` step is in progress, each "
+    "planned at the depth of the stacks it finds (baseOf); c05_ladder_depth_independent (plan_transfer: a ladder "
+    "that never pops an empty stack has the same plan at every depth) + the frame lemma applyPrimsN_frames (a "
+    "balanced, strict list of steps touches only the frames it pushed) give c05_restored_when_nested / "
+    "c05_restored_after_nested for every tree of executions, to any depth. How student code REACHES the hook "
+    "(mocked builtin, namespace, input callable) is exercised, not modelled; an inner execution given no tracer "
+    "style of its own re-enters the outer tracer object (modelled like a nested import)",
     "_stop_mocking is ONE primitive step of the model (its effect is the probed MockProbe): the order of the "
     "statements inside it, and a failure of pedal's own bookkeeping between them (storing the captured output: "
     "Sandbox.append_output / _read_captured raising, e.g. MemoryError on a huge output), are outside the model. "
